@@ -184,6 +184,9 @@ func (g *GitRepo) Commit(branch string, entries []GitEntry, msg string) string {
 	return c
 }
 
+// Repack moves every object into one pack (`git repack -a -d`): the readers then go through packfiles.
+func (g *GitRepo) Repack() { g.Git(nil, "repack", "-a", "-d", "-q") }
+
 // Fsck runs `git fsck --strict` (the objects above are hand-written).
 func (g *GitRepo) Fsck() string {
 	out, err := g.TryGit(nil, "fsck", "--strict", "--no-dangling")
